@@ -96,7 +96,7 @@ def solver_flags(solver, workdir):
 
 # --------------------------------------------------------------------------- C text assembly
 
-def lowered_text(ast, roots, fnspecs, cuts=(), line_directives=True, drop_contracts=False, simd_contracts=False):
+def lowered_text(ast, roots, fnspecs, cuts=(), line_directives=True, drop_contracts=False, simd_contracts=False, cut_qual=(), call_rename=None):
     """lower the functions named by qualified name in `roots` plus callee closure.
     fnspecs: cname -> contract dict.  Returns (text, lowerer)."""
     lw = Lowerer(ast, line_directives=line_directives)
@@ -104,6 +104,8 @@ def lowered_text(ast, roots, fnspecs, cuts=(), line_directives=True, drop_contra
     lw.no_contracts = drop_contracts
     lw.simd_contracts = simd_contracts and not drop_contracts
     lw.cuts = set(cuts)
+    lw.cut_qual = tuple(cut_qual)
+    lw.call_rename = call_rename
     for q in roots:
         fs = ast.find_functions(q)
         if not fs:
@@ -261,14 +263,16 @@ def run_job(job, unit, workdir, log=print):
             return res
         specs = {k: expand_spec(v) for k, v in job.get('specs', {}).items()}
         mode = job.get('mode', 'dfcc')
-        text, lw = lowered_text(ast, job['roots'], specs, cuts=job.get('cuts', ()), simd_contracts=bool(job.get('simd_contracts')))
+        text, lw = lowered_text(ast, job['roots'], specs, cuts=job.get('cuts', ()), simd_contracts=bool(job.get('simd_contracts')), cut_qual=job.get('cut_qual', ()))
         ghosts = job.get('ghosts', [])
         gtext = ''.join('%s %s;\n' % (t, g) for t, g in ghosts)
         # spec sanity: every spec'd function must exist in the lowered text
         for cn in specs:
-            if cn not in lw.fn_info:
+            if cn not in lw.fn_info and set(job['specs'][cn].keys()) - {'stub_body'}:
                 raise Undecided('spec names function %s which the lowering did not produce (renamed or no longer called?)' % cn)
         for cn, sp in specs.items():
+            if cn not in lw.fn_info:
+                continue
             inf = lw.fn_info[cn]
             if inf['has_body'] and cn not in job.get('replace', ()) and sp.get('loops') is not None:
                 nl = len(sp.get('loops') or {})
@@ -288,7 +292,7 @@ def run_job(job, unit, workdir, log=print):
             import replay as RP
             raw = job.get('specs', {})
             text, lw = lowered_text(ast, job['roots'], {k: {kk: vv for kk, vv in v.items() if kk == 'ghost_returns'} for k, v in raw.items()},
-                                    cuts=job.get('cuts', ()), drop_contracts=True)
+                                    cuts=job.get('cuts', ()), drop_contracts=True, cut_qual=job.get('cut_qual', ()))
             fixed = dict(job.get('fixed') or {})
             if job.get('sweep'):
                 fixed[job['sweep'][0]] = 'QX_SWEEP'
@@ -478,6 +482,13 @@ def run_job(job, unit, workdir, log=print):
         tot, ok, bad = res.counts()
         if bad and mode in ('harness', 'raw') and all('.unwind.' in o['name'] for o in bad):
             raise Undecided('only unwinding assertions failed (%s): the stated unwinding bound of this job is too small' % bad[0]['name'])
+        if bad and job.get('scope_re'):
+            # the same modular proof serves two properties; each reports only the obligation classes that state it.
+            # A failure confined to the other property's obligations leaves this one undecided (its proof rests on them).
+            inscope = [o for o in bad if re.search(job['scope_re'], o['name'])]
+            if not inscope:
+                raise Undecided('only obligations outside the scope of this property failed (%s ...); %s' % (bad[0]['name'], job.get('scope_note', '')))
+            res.obligations = [o for o in res.obligations if o['status'] != 'FAILURE' or o in inscope]
         res.status = 'pass' if not bad else 'fail'
     except Undecided as e:
         res.status = 'undecided'
